@@ -57,11 +57,20 @@ pub mod spec {
         v
     }
     /// Contract of Value::to_vcd_value on sized <=64-bit values. Harness `vcd_value_bit` proves the real function equal to this for
-    /// every wf value and every i; `vcd_iter_msb_first` then uses it in place of the real function (assume-guarantee), checking the precondition.
+    /// every wf value and every i; `fst_bits` then uses it in place of the real function (assume-guarantee), checking the precondition.
     pub fn to_vcd_value_contract(v: &Value, i: u64) -> vcd::Value {
         let x = u(v);
         assert!(wf_sized(x), "to_vcd_value contract used outside its precondition");
         vcd_of(if i < x.width as u64 { vb(x, i as usize) } else { L4::Zero })
+    }
+    /// Model of Vec::with_capacity for to_fst_bits (n <= 64 asserted): a vector whose capacity is the constant 64 >= n. std documents
+    /// "at least the specified capacity"; the capacity is not observable in the returned bytes. With a constant capacity CBMC can
+    /// discard the reallocation path of every push.
+    pub fn vec_with_capacity_64<T>(n: usize) -> Vec<T> {
+        assert!(n <= 64, "capacity model used outside its range");
+        let mut v = Vec::new();
+        v.reserve_exact(64);
+        v
     }
     pub fn u(v: &Value) -> &ValueU64 {
         match v { Value::U64(x) => x, _ => panic!("a <=64-bit value must stay in the <=64-bit representation") }
@@ -70,6 +79,7 @@ pub mod spec {
 
 pub mod harness {
     use super::spec::*;
+    use crate::value::vp_inner::{iter_at, iter_pos, iter_value};
     use crate::value::{SvLogicVecVal, Value, ValueU64};
 
     // ---------------- DPI decode: &[svLogicVecVal] -> Value, len 1 and 2 (everything that lands in the <=64-bit representation)
@@ -148,47 +158,76 @@ pub mod harness {
         assert!(v.to_vcd_value(i) == to_vcd_value_contract(&v, i));
         assert!(vcd::Value::from(&v) == vcd_of(vb(&x, 0)));
     }
-    /// bounded stand-in (width <= 8), real BigUint::from(u64)/bit path: Vec growth + 3 BigUint temporaries per bit make 64 iterations too big for CBMC
-    #[vp_vcd(10)]
-    pub fn fst_bits() {
-        let x = any_wf_sized();
+    fn fst_msb_first(x: &ValueU64) {
         let w = x.width as usize;
-        kani::assume(w <= 8);
         let k: usize = kani::any();
         kani::assume(k < w);
         let b = Value::U64(x.clone()).to_fst_bits();
         assert!(b.len() == w);
         // MSB first: entry 0 is bit w-1, entry w-1 is bit 0
-        assert!(b[w - 1 - k] == char_of(vb(&x, k)));
+        assert!(b[w - 1 - k] == char_of(vb(x, k)));
     }
-    fn iter_msb_first(x: &ValueU64) {
+    /// complete (every width 1..=64), modular: to_vcd_value replaced by its contract (proved by `vcd_value_bit`), Vec::with_capacity by a
+    /// constant-capacity model
+    #[vp_fst(66)]
+    pub fn fst_bits() {
+        let x = any_wf_sized();
+        fst_msb_first(&x);
+    }
+    /// bounded stand-in (width <= 4) of the same statement with nothing replaced (real BigUint::from(u64)/bit path, real Vec::with_capacity)
+    #[vp_vcd(6)]
+    pub fn fst_bits_direct() {
+        let x = any_wf_sized();
+        kani::assume(x.width <= 4);
+        fst_msb_first(&x);
+    }
+
+    // VcdValueIter: `next` is loop-free, so it is specified as a transition on an ARBITRARY iterator state (value, pos); "yields width items,
+    // MSB first, then None" follows by induction on the number of calls from `vcd_iter_init` (pos == 0) and `vcd_iter_step`.
+    #[vp_vcd(4)]
+    pub fn vcd_iter_init() {
+        let x = any_wf_sized();
+        let v = Value::U64(x.clone());
+        let it = (&v).into_iter();
+        assert!(iter_pos(&it) == 0 && *iter_value(&it) == v);
+    }
+    #[vp_vcd(4)]
+    pub fn vcd_iter_step() {
+        let x = any_wf_sized();
+        let w = x.width as u64;
+        let pos: u64 = kani::any();
+        let v = Value::U64(x.clone());
+        let mut it = iter_at(v.clone(), pos);
+        let r = it.next();
+        if pos < w {
+            // the item produced in state pos is bit w-1-pos, and the state advances by one
+            assert!(r == Some(vcd_of(vb(&x, (w - 1 - pos) as usize))));
+            assert!(iter_pos(&it) == pos + 1);
+        } else {
+            assert!(r.is_none() && iter_pos(&it) == pos);
+        }
+        assert!(*iter_value(&it) == v);
+    }
+    /// bounded stand-in (width <= 4): the whole iteration end to end
+    #[vp_vcd(6)]
+    pub fn vcd_iter_direct() {
+        let x = any_wf_sized();
+        kani::assume(x.width <= 4);
         let w = x.width as usize;
         let k: usize = kani::any();
         kani::assume(k < w);
         let v = Value::U64(x.clone());
+        let want = vcd_of(vb(&x, k));
         let mut it = (&v).into_iter();
         let mut n: usize = 0;
         while let Some(item) = it.next() {
             assert!(n < w);
             // the n-th item is bit w-1-n
-            if n == w - 1 - k { assert!(item == vcd_of(vb(x, k))); }
+            if n == w - 1 - k { assert!(item == want); }
             n += 1;
         }
         assert!(n == w);
         assert!(it.next().is_none());
-    }
-    /// complete (every width 1..=64), modular: to_vcd_value replaced by its contract (proved by `vcd_value_bit`)
-    #[vp_mod(66)]
-    pub fn vcd_iter_msb_first() {
-        let x = any_wf_sized();
-        iter_msb_first(&x);
-    }
-    /// bounded stand-in (width <= 8) of the same statement without the modular stub (real BigUint path end to end)
-    #[vp_vcd(10)]
-    pub fn vcd_iter_direct() {
-        let x = any_wf_sized();
-        kani::assume(x.width <= 8);
-        iter_msb_first(&x);
     }
 
     // ---------------- vacuity canary (must FAIL)
